@@ -8,6 +8,7 @@ import (
 	"fmt"
 	"io"
 	"os"
+	"runtime"
 	"strings"
 	"testing"
 	"testing/synctest"
@@ -418,12 +419,12 @@ func runC03(t fataler, mode c03Mode, frames []ref.Frame, stream []byte, sizes []
 
 func TestC03(t *testing.T) {
 	rec := evid.For("C03")
-	rec.Rule = "rapid-generated inbound streams from an independent encoder: 1-5 messages with drawn fragmentation (incl. empty fragments, cuts inside compressed payloads), foreign deflater variants (sync, BFINAL=1+00, stored, multi-flush, levels), interleaved Ping/Pong at every position, 0-2 injected violations or a valid Close, non-minimal lengths (comparison stops there), over 9 (role, negotiated compression) settings obtained through the real handshake, transport chunking down to 1 byte, read buffer sizes 1..100000; compared with the reference receiver. Non-trivial: a control frame inside a fragmented message, or an injected violation/Close, or a compressed message in >=2 fragments. distinct = hash(mode, frame shape sequence, violation kinds, chunking kind)."
+	rec.Rule = "rapid-generated inbound streams from an independent encoder: 1-5 messages with drawn fragmentation (incl. empty fragments, runs of 20-300 empty continuation frames, cuts inside compressed payloads), foreign deflater variants (sync, BFINAL=1+00, stored, multi-flush, levels), interleaved Ping/Pong at every position, 0-2 injected violations or a valid Close, non-minimal lengths (comparison stops there), over 9 (role, negotiated compression) settings obtained through the real handshake, transport chunking down to 1 byte, read buffer sizes 1..100000; compared with the reference receiver. Non-trivial: a control frame inside a fragmented message, or an injected violation/Close, or a compressed message in >=2 fragments. distinct = hash(mode, frame shape sequence, violation kinds, chunking kind)."
 	rapid.Check(t, func(rt *rapid.T) {
 		mode := rapid.SampledFrom(c03Modes).Draw(rt, "mode")
 		deflate := mode.Mode != websocket.CompressionDisabled
 		takeover := deflate && (mode.Name == "server/takeover" || mode.Name == "client/takeover" || mode.Name == "client/takeover-client_no_ctx-resp")
-		msgs, frames := genInStream(rt, inStreamOpts{Deflate: deflate, Takeover: takeover, MaxMsgs: 5, MaxLen: 9000, MaxFrags: 4, Controls: true, AllowBFin: true})
+		msgs, frames := genInStream(rt, inStreamOpts{Deflate: deflate, Takeover: takeover, MaxMsgs: 5, MaxLen: 9000, MaxFrags: 4, Controls: true, AllowBFin: true, EmptyRuns: true})
 		nInj := rapid.SampledFrom([]int{0, 0, 1, 1, 1, 2}).Draw(rt, "nInject")
 		var kinds []string
 		for i := 0; i < nInj; i++ {
@@ -481,6 +482,12 @@ func TestC03(t *testing.T) {
 		}
 		if compFrag {
 			classes = append(classes, "compressed-fragmented")
+		}
+		for _, m := range msgs {
+			if m.EmptyRun >= 100 && m.Compressed {
+				classes = append(classes, ">=100-empty-frames-inside-compressed-message")
+				break
+			}
 		}
 		rec.Case(ctlInside || compFrag || nInj > 0, shape, classes...)
 		if rec.WantSample() {
@@ -650,6 +657,80 @@ func TestC03Regress(t *testing.T) {
 			if msg != "" {
 				failCase(t, "C03", map[string]any{"regress": rc.Name, "mode": rc.Mode, "hex": rc.Hex, "buf": buf}, "%s", msg)
 			}
+		}
+	}
+}
+
+// TestC03Flood: any number of control frames may precede the next data frame.
+// The reader has to take them in without its resource use growing with their
+// number: a stack that grows per control frame ends in "fatal error: stack
+// overflow", which no recover() can catch, after a few million two-byte frames.
+// The goroutine's stack is measured right after the Read that swallowed the
+// flood returns (stacks shrink only in a later GC cycle, and then by half).
+func TestC03Flood(t *testing.T) {
+	rec := evid.For("C03")
+	type floodCase struct {
+		Client bool
+		Op     byte
+		N      int
+		Plen   int
+	}
+	var cases []floodCase
+	for _, client := range []bool{true, false} {
+		cases = append(cases, floodCase{client, ref.OpPong, 300000, 0}, floodCase{client, ref.OpPong, 100000, 3}, floodCase{client, ref.OpPing, 30000, 1})
+	}
+	var rc floodCase
+	if replayCase(t, &rc) {
+		cases = []floodCase{rc}
+	}
+	for _, c := range cases {
+		var msg string
+		synctest.Test(t, func(t *testing.T) {
+			e := newEnv(t)
+			defer e.Teardown()
+			lc, err := e.open(connSpec{Client: c.Client})
+			if err != nil {
+				msg = "handshake: " + err.Error()
+				return
+			}
+			lc.Peer.start(e)
+			one := ref.Frame{Fin: true, Opcode: c.Op, Payload: bytes.Repeat([]byte{'p'}, c.Plen)}
+			if c.Client {
+				one.Masked = false
+			} else {
+				one.Masked, one.Key = true, [4]byte{1, 2, 3, 4}
+			}
+			data := ref.Frame{Fin: true, Opcode: ref.OpText, Payload: []byte("after the flood"), Masked: one.Masked, Key: one.Key}
+			stream := append(bytes.Repeat(one.Encode(), c.N), data.Encode()...)
+			lc.End.Write(stream)
+			lc.End.CloseWrite(nil)
+			var before, after runtime.MemStats
+			var got []byte
+			var rerr error
+			done := e.Call(func() {
+				runtime.ReadMemStats(&before)
+				_, got, rerr = lc.C.Read(context.Background())
+				runtime.ReadMemStats(&after)
+			})
+			if !within(done, 300*time.Second) {
+				msg = "Read did not return within 300 s (virtual)"
+				return
+			}
+			if ps := e.Panics(); len(ps) > 0 {
+				msg = "library panicked: " + ps[0]
+				return
+			}
+			if rerr != nil || string(got) != "after the flood" {
+				msg = fmt.Sprintf("the message after %d control frames was not delivered: %q, %v", c.N, got, rerr)
+				return
+			}
+			if grown := int64(after.StackInuse) - int64(before.StackInuse); grown > 8<<20 {
+				msg = fmt.Sprintf("goroutine stacks grew by %d bytes while one Read took in %d control frames (%d bytes per frame): unbounded recursion ends in a fatal stack overflow", grown, c.N, grown/int64(c.N))
+			}
+		})
+		rec.Case(true, fmt.Sprintf("flood|%v|%d|%d|%d", c.Client, c.Op, c.N, c.Plen), "control-frame-flood")
+		if msg != "" {
+			failCase(t, "C03", c, "%s", msg)
 		}
 	}
 }
